@@ -146,12 +146,12 @@ Proof.
   change (classify ("$." ++ "")) with KDot. rewrite <- app_assoc. reflexivity.
 Qed.
 
-Lemma flat_mapi_atoms (X : stmt -> list piece) (c : nat -> bool) : forall l i,
-  atoms (flat_mapi_from (fun v_i v_stmt => (X v_stmt ++ (if c v_i then [W nl] else [W " "]))%list) i l)
+Lemma flat_mapi_atoms (X : stmt -> list piece) (sep : nat -> list piece) : (forall i, atoms (sep i) = [ASp]) -> forall l i,
+  atoms (flat_mapi_from (fun v_i v_stmt => (X v_stmt ++ sep v_i)%list) i l)
   = flat_map (fun st => atoms (X st) ++ [ASp])%list l.
 Proof.
-  induction l as [|a l IH]; intros i; [reflexivity|]. cbn [flat_mapi_from flat_map].
-  rewrite !atoms_app, IH. destruct (c i); reflexivity.
+  intros Hs. induction l as [|a l IH]; intros i; [reflexivity|]. cbn [flat_mapi_from flat_map].
+  rewrite !atoms_app, IH, Hs. reflexivity.
 Qed.
 
 Lemma group_stmts (enc : stmt -> list piece) (tk : stmt -> list tok) : forall l tail,
@@ -176,7 +176,8 @@ Proof.
     cbn [print_stmt app]. now rewrite <- app_assoc.
   - intros rest. cbn [GenMM.encode_stmt]. rewrite (structured_ok KindP l _ pf (HL l (or_introl eq_refl)) rest).
     cbn [print_stmt app]. rewrite <- !app_assoc. cbn [app]. rewrite <- !app_assoc. reflexivity.
-  - intros rest. cbn [GenMM.encode_stmt]. cbv zeta. rewrite !atoms_app. unfold flat_mapi. rewrite flat_mapi_atoms.
+  - intros rest. cbn [GenMM.encode_stmt]. cbv zeta. rewrite !atoms_app. unfold flat_mapi.
+    rewrite flat_mapi_atoms by (intros i; match goal with |- context [if ?c then _ else _] => destruct c end; reflexivity).
     change (atoms [W "${ "]) with [ALit "${"; ASp]. change (atoms [W "$}"]) with [ALit "$}"].
     rewrite <- !app_assoc. cbn [app group flush lits_only]. change (classify ("${" ++ "")) with KOpen.
     rewrite (group_stmts (GenMM.encode_stmt false) print_stmt ss).
@@ -301,7 +302,7 @@ Proof. induction l as [|a l IH]; [reflexivity|]. cbn [map py_filter_none flat_ma
 (** the generated `corresponding_sugar_axiom` (whatever its let/beta shape) agrees with [sugar_of] *)
 Ltac solve_sugar cut :=
   let a := fresh "a" in
-  intros a; cbv beta; unfold sugar_of, sugar_label, py_endswith, py_drop_last, dict_has;
+  intros a; cbv beta; unfold sugar_of, sugar_label, py_removesuffix, py_endswith, py_drop_last, dict_has;
   change (String.length "is-pattern") with 10;
   destruct (Nat.leb 10 (String.length a) && String.eqb (String.substring (String.length a - 10) 10 a) "is-pattern")%bool;
   [|reflexivity];
